@@ -184,8 +184,8 @@ func genTypes() (string, string) {
 	sort.Strings(named)
 
 	var b strings.Builder
-	b.WriteString(header)
-	b.WriteString("import ComposeVerif.Model.TypeDesc\nnamespace CV.Gen\nopen CV.TypeDesc\n\n")
+	b.WriteString("import ComposeVerif.Model.TypeDesc\n" + header)
+	b.WriteString("namespace CV.Gen\nopen CV.TypeDesc\n\n")
 	var sn []string
 	for _, s := range structs {
 		fmt.Fprintf(&b, "def struct_%s : StructDesc := { name := %s, fields := [", s.name, leanStr(s.name))
